@@ -3,11 +3,11 @@ CONSTANTS
   Class = "stream"
   Ideal = FALSE
   KSet = {"n", "orph"}
-  NW <- W11
+  NW <- W10
   NR <- W11
   NC <- W11
   WMax = 3
   CMax = 2
 INVARIANTS TypeOK
-PROPERTIES ClosedForGood CloseReturns CloseUnblocksRead CloseUnblocksWrite WriteReturns NoLossLive
+PROPERTIES ClosedForGood CloseReturns CloseUnblocksRead CloseUnblocksWrite
 CHECK_DEADLOCK FALSE
